@@ -31,11 +31,12 @@
 #include <time.h>
 #include <unistd.h>
 #include <sys/syscall.h>
+#include <sys/stat.h>
 
 enum { E_iEnter, E_iChkBegin, E_iChkSync, E_iChkEnd1, E_iChkEnd0, E_iSpin, E_iLock, E_iStepBegin,
-       E_iStepEnd, E_iUnlock, E_iEpiSync, E_iLeave, E_sLock, E_sSerBegin, E_sSerEnd, E_sUnlock, E_xStart, E_xStop, E_sSent, E_N };
+       E_iStepEnd, E_iUnlock, E_iEpiSync, E_iLeave, E_sLock, E_sSerBegin, E_sSerEnd, E_sUnlock, E_xStart, E_xStop, E_sSent, E_sStatic, E_iShotUnlock, E_iShotLock, E_N };
 static const char* NAMES[E_N] = {"iEnter", "iChkBegin", "iChkSync", "iChkEnd1", "iChkEnd0", "iSpin", "iLock",
-    "iStepBegin", "iStepEnd", "iUnlock", "iEpiSync", "iLeave", "sLock", "sSerBegin", "sSerEnd", "sUnlock", "xStart", "xStop", "sSent"};
+    "iStepBegin", "iStepEnd", "iUnlock", "iEpiSync", "iLeave", "sLock", "sSerBegin", "sSerEnd", "sUnlock", "xStart", "xStop", "sSent", "sStatic", "iShotUnlock", "iShotLock"};
 
 struct rec { unsigned char code; signed char nc; };
 
@@ -72,7 +73,9 @@ static __thread int t_is_server;         /* this thread has taken the server mut
 static unsigned g_prob = 0, g_maxus = 0; /* delay injection: probability per 1000, max microseconds */
 static uint64_t g_seed = 1;
 
-static __thread int t_in_chk, t_in_step, t_in_int, t_pro, t_adj;
+static __thread int t_in_chk, t_in_step, t_in_int, t_pro, t_adj, t_in_hb, t_static;
+static void (*real_heartbeat)(void*);
+static int (*real_stat)(const char*, struct stat*);
 static __thread uint64_t t_rng;
 
 static long mytid(void) { return syscall(SYS_gettid); }
@@ -94,6 +97,7 @@ static void resolve_lib(void) {
     real_synchronize = dlsym(h, "reb_simulation_synchronize");
     real_step = dlsym(h, "reb_simulation_step");
     real_save = dlsym(h, "reb_simulation_save_to_stream");
+    real_heartbeat = dlsym(h, "reb_run_heartbeat");
     if (!real_check_exit || !real_synchronize || !real_step || !real_save) {
         fprintf(stderr, "c19_preload: symbol missing in %s\n", p); abort();
     }
@@ -151,7 +155,8 @@ int pthread_mutex_lock(pthread_mutex_t* m) {
     delay();
     int rc = real_lock(m);
     if (!isI) t_is_server = 1;
-    append(isI ? E_iLock : E_sLock, isI ? -1 : nc_now());
+    /* inside a heartbeat the integrator only locks in reb_simulation_output_screenshot (output.c:304) */
+    append(isI ? (t_in_hb ? E_iShotLock : E_iLock) : E_sLock, isI ? -1 : nc_now());
     delay();
     return rc;
 }
@@ -161,7 +166,7 @@ int pthread_mutex_unlock(pthread_mutex_t* m) {
     if (!g_active || !is_srv_mutex(m)) return real_unlock(m);
     int isI = mytid() == g_itid;
     delay();
-    append(isI ? E_iUnlock : E_sUnlock, isI ? -1 : nc_now());
+    append(isI ? (t_in_hb ? E_iShotUnlock : E_iUnlock) : E_sUnlock, isI ? -1 : nc_now());
     int rc = real_unlock(m);
     delay();
     return rc;
@@ -183,10 +188,20 @@ size_t fwrite(const void* ptr, size_t size, size_t n, FILE* f) {
     if (!real_fwrite) real_fwrite = dlsym(RTLD_NEXT, "fwrite");
     if (g_active && lib_handle && ptr && ((g_hdr && ptr == (const void*)*g_hdr) || (g_hdr_png && ptr == (const void*)*g_hdr_png))
         && mytid() != g_itid) {
-        append(E_sSent, -1);
+        /* favicon (png header) and "/" (header right after stat("rebound.html")) never touch r: static reply */
+        int is_static = (g_hdr_png && ptr == (const void*)*g_hdr_png) || t_static;
+        t_static = 0;
+        append(is_static ? E_sStatic : E_sSent, -1);
         delay();
     }
     return real_fwrite(ptr, size, n, f);
+}
+
+int stat(const char* path, struct stat* st) {
+    if (!real_stat) real_stat = dlsym(RTLD_NEXT, "stat");
+    int rc = real_stat(path, st);
+    if (rc == 0 && g_active && path && !strcmp(path, "rebound.html") && mytid() != g_itid) t_static = 1;   /* server.c:383: route "/" */
+    return rc;
 }
 
 /* fclose(stream) already closes the descriptor; a following close(fd) of the same number by the same thread closes
@@ -244,6 +259,14 @@ void reb_simulation_step(void* r) {
     delay();
     t_in_step = 0;
     append(E_iStepEnd, -1);
+}
+
+void reb_run_heartbeat(void* r) {
+    resolve_lib();
+    int mine = g_active && t_in_int && mytid() == g_itid;
+    if (mine) t_in_hb = 1;
+    real_heartbeat(r);
+    if (mine) t_in_hb = 0;
 }
 
 void reb_simulation_save_to_stream(void* r, char** bufp, size_t* sizep) {
